@@ -228,7 +228,7 @@ PROPS = {
             'slab::Slab modelled as a partial map whose vacant key is unoccupied']),
     'C10': dict(
         probes=[dict(name='sections_agreement', kind='agreement', target='fe2o3_amqp::link::receiver_link::count_number_of_sections_and_offset', args=['C10.sections'], claim='count_number_of_sections_and_offset (enters unit REASM as an assumed contract: number <= len, offset <= len) stays within those bounds and, for smallulong descriptors, counts exactly the 00 53 7x headers and the distance of the last one from the end', bound='every byte string of <= 7 bytes over {00,53,70,75,78,80,01} (960 800 strings), real function through the verif-hooks facade')],
-        units=['REASM', 'LINK', 'BYTEREADER', 'READERS', 'SESSION', 'WIRING', 'ACCLINK'], kani=[], level='proof', title='Reassembly',
+        units=['REASM', 'LINK', 'BYTEREADER', 'READERS', 'SESSION', 'WIRING', 'ACCLINK', 'LINKFLOW'], kani=[], level='proof', title='Reassembly',
         lemmas={'REASM': ['lemma_concat_push', 'lemma_concat_one'], 'BYTEREADER': ['lemma_after_take', 'lemma_flat_drained']},
         assumptions=[ASYNC,
             'a multi-frame delivery buffers fewer than 2^32 bytes (otherwise the u32 section counter of IncompleteTransfer::append could overflow)',
